@@ -260,6 +260,9 @@ func ruleC03(w *World, r *Report) {
 	r.withRule("R03.11", func() { ruleC05Complete(w, r) })
 	ruleStoredIsProgrammed(w, r, "C03", "R03.12")
 	ruleBessWorkersReportTrue(w, r, "R03.13")
+	r.withRule("R03.14", func() { ruleC06SeidEntropy(w, r) })
+	ruleLocalSEIDArgs(w, r, "C03", "R03.16")
+	r.withRule("R03.15", func() { ruleC17DoneOnce(w, r) })
 }
 
 // priorityShape: conv(K - precedence) with K ≥ 2^32-1 computed in an unsigned type of ≥ 32 bits.
